@@ -618,6 +618,13 @@ void tickit_window_resize(TickitWindow *win, int lines, int cols)
 
 void tickit_window_reposition(TickitWindow *win, int top, int left)
 {
+  /* A geomchange handler may close this window, or drop the last reference to
+   * it or to one of its ancestors; the window is still looked at below */
+  HeldWindows held;
+  if(!_hold_ancestors(win, &held))
+    return;
+  tickit_window_ref(win);
+
   tickit_window_set_geometry(win, (TickitRect){
       .top   = top,
       .left  = left,
@@ -625,8 +632,12 @@ void tickit_window_reposition(TickitWindow *win, int top, int left)
       .cols  = win->rect.cols}
   );
 
+  /* ... and may have left the tree meanwhile */
   if(win->is_focused)
-    _request_restore(_get_root(win));
+    _focus_chain_changed(win);
+
+  tickit_window_unref(win);
+  _release_held(&held);
 }
 
 void tickit_window_set_geometry(TickitWindow *win, TickitRect geom)
